@@ -4,7 +4,7 @@ set -e
 cd "$(dirname "$0")"
 export GOFLAGS=-mod=mod GOPROXY=off GOSUMDB=off GOTOOLCHAIN=local CGO_ENABLED=0
 mkdir -p build evidence replays
-(cd translator && go build -o ../build/translator .)
+(cd translator && go build -o ../build/translator . && go build -o ../build/factscan ./factscan)
 ./build/translator /repo lean/WhatIs/Gen build/facts.json || echo "setup: translator reported a broken tie (checks will report it)"
 (cd lean && lake build driver WhatIs) || echo "setup: lake build reported errors (checks will report them)"
 python3 - <<'PY'
